@@ -3,154 +3,14 @@
 // points, both spawn functions, the executor, the manual checkpoint function, inflight detection, the checkpoint "latest wins"
 // scan, the append_* writers they use, the whole summary renderer module and the summary constructor run against in-memory
 // stand-ins for the log, the sidecar caches and the blob store.  Histories, strides, limits and cache modes are enumerated.
-use std::cell::RefCell;
-use std::collections::HashMap;
-use std::io;
-use std::path::{Path, PathBuf};
-use std::sync::Mutex;
-//@@ include prelude/kernel_model_plain.rs
-macro_rules! json { ($($t:tt)*) => { Value { filler: 0 } } }   // R8: serde_json::json! -> opaque value (never read back by the code under test)
-
-pub struct Uuid;
-thread_local! { static CTR: RefCell<u64> = RefCell::new(0); static BLOBS: RefCell<HashMap<String, CompactionSummaryV1>> = RefCell::new(HashMap::new()); static FAULT_WRITE_AT: RefCell<Option<u64>> = RefCell::new(None); }
-impl Uuid { pub fn new_v4() -> Uuid { Uuid } }
-impl std::fmt::Display for Uuid { fn fmt(&self, f: &mut std::fmt::Formatter<'_>) -> std::fmt::Result { let n = CTR.with(|c| { *c.borrow_mut() += 1; *c.borrow() }); write!(f, "uuid-{n}") } }
-pub fn now_ms() -> u64 { 0 }
-
-// ---- collaborators (executable stand-ins; assumed contracts, listed in evidence) --------------------------------------------
-pub struct EventLog { pub frames: RefCell<Vec<Event>> }
-impl EventLog { pub fn append(&self, e: &Event) -> Result<(), String> { self.frames.borrow_mut().push(e.clone()); Ok(()) } }
-pub struct Sender;
-impl Sender { pub fn send(&self, _e: Event) -> Result<usize, ()> { Ok(0) } }
-pub struct TailScan { pub events: Vec<Event>, pub complete: bool }
-pub struct Parsed { pub events: Vec<Event> }
-pub struct File;
-impl File { pub fn open(_p: &PathBuf) -> io::Result<File> { Ok(File) } }
-pub enum ParseMode { Event }
-thread_local! { static SIDECAR: RefCell<Vec<Event>> = RefCell::new(Vec::new()); }
-// newest first, as the real scan_sidecar_backwards returns them (proved in unit c04_scan)
-pub fn scan_sidecar_backwards(_f: &mut File, id: &str, _n: usize, _b: usize, _m: ParseMode, _x: Option<u64>) -> io::Result<Parsed> {
-    Ok(Parsed { events: SIDECAR.with(|s| s.borrow().iter().rev().filter(|e| e.session_id == id && matches!(e.kind, EventKind::ContinuityCompactionCheckpointCreated { .. })).cloned().collect()) })
-}
-// mode 0: every cache absent (truth-log paths); mode 1: caches present and faithful to the appended frames
-pub struct ContinuityStreamCache { pub mode: u8 }
-impl ContinuityStreamCache {
-    pub fn append_best_effort(&self, e: &Event) { SIDECAR.with(|s| s.borrow_mut().push(e.clone())); }
-    fn msgs(&self, id: &str) -> Vec<(u64, String)> { SIDECAR.with(|s| s.borrow().iter().filter(|e| e.session_id == id && matches!(e.kind, EventKind::ContinuityMessageAppended { .. })).map(|e| (e.seq, e.id.clone())).collect()) }
-    pub fn message_count_messages_runs_v1(&self, id: &str) -> io::Result<Option<u64>> { if self.mode == 0 { return Ok(None); } Ok(Some(self.msgs(id).len() as u64)) }
-    pub fn message_by_ordinal_messages_runs_v1(&self, id: &str, ordinal: u64) -> io::Result<Option<(u64, String)>> {
-        if self.mode == 0 || ordinal == 0 { return Ok(None); } Ok(self.msgs(id).get((ordinal - 1) as usize).cloned()) }
-    pub fn try_read_last_seq(&self, id: &str) -> io::Result<Option<u64>> { if self.mode == 0 { return Ok(None); } Ok(SIDECAR.with(|s| s.borrow().iter().filter(|e| e.session_id == id).map(|e| e.seq).last())) }
-    pub fn scan_tail(&self, id: &str, max_events: usize, _b: usize) -> io::Result<Option<TailScan>> {
-        if self.mode == 0 { return Ok(None); }
-        let all: Vec<Event> = SIDECAR.with(|s| s.borrow().iter().filter(|e| e.session_id == id).cloned().collect());
-        let k = all.len().saturating_sub(max_events);
-        Ok(Some(TailScan { events: all[k..].to_vec(), complete: k == 0 }))
-    }
-    pub fn ensure_compaction_checkpoints_sidecar_best_effort_v1(&self, _id: &str) -> io::Result<Option<PathBuf>> { if self.mode == 0 { Ok(None) } else { Ok(Some(PathBuf::from("sidecar"))) } }
-    //@@ fn crates/ripd/src/continuity_stream_cache.rs ContinuityStreamCache::latest_compaction_checkpoint_before_or_at_seq_v1
-    //@@ end
-}
-
-// ---- summary artifacts: real constructor and accessors, in-memory blob store --------------------------------------------------
-//@@ item crates/ripd/src/compaction_summary.rs const COMPACTION_SUMMARY_SCHEMA_V1
-//@@ item crates/ripd/src/compaction_summary.rs const COMPACTION_SUMMARY_KIND_CUMULATIVE_V1
-//@@ item crates/ripd/src/compaction_summary.rs struct NewCumulativeCompactionSummaryV1
-//@@ item crates/ripd/src/compaction_summary.rs struct CompactionSummaryV1
-//@@ item crates/ripd/src/compaction_summary.rs struct CompactionSummaryCoverageV1
-//@@ item crates/ripd/src/compaction_summary.rs struct CompactionSummaryProvenanceV1
-//@@ item crates/ripd/src/compaction_summary.rs struct CompactionSummaryProducedByV1
-//@@ item crates/ripd/src/compaction_summary.rs struct CompactionSummaryBasisV1
-impl CompactionSummaryV1 {
-    //@@ fn crates/ripd/src/compaction_summary.rs CompactionSummaryV1::new_cumulative_source_cut
-    //@@ end
-    //@@ fn crates/ripd/src/compaction_summary.rs CompactionSummaryV1::schema
-    //@@ end
-    //@@ fn crates/ripd/src/compaction_summary.rs CompactionSummaryV1::kind
-    //@@ end
-    //@@ fn crates/ripd/src/compaction_summary.rs CompactionSummaryV1::coverage_thread_id
-    //@@ end
-    //@@ fn crates/ripd/src/compaction_summary.rs CompactionSummaryV1::coverage_to_seq
-    //@@ end
-    //@@ fn crates/ripd/src/compaction_summary.rs CompactionSummaryV1::summary_markdown
-    //@@ end
-}
-pub fn write_compaction_summary_v1(_root: &Path, s: &CompactionSummaryV1) -> Result<String, String> {
-    let n = CTR.with(|c| { *c.borrow_mut() += 1; *c.borrow() });
-    if FAULT_WRITE_AT.with(|f| *f.borrow() == Some(s.coverage_to_seq())) { return Err("artifact write failed: injected".into()); }
-    let id = format!("artifact-{n}");
-    BLOBS.with(|b| b.borrow_mut().insert(id.clone(), s.clone()));
-    Ok(id)
-}
-pub fn read_compaction_summary_v1(_root: &Path, id: &str) -> Result<CompactionSummaryV1, String> {
-    BLOBS.with(|b| b.borrow().get(id).cloned()).ok_or_else(|| "artifact read failed: not found".to_string())
-}
-//@@ file crates/ripd/src/compaction_auto_summary.rs mod=compaction_auto_summary
-use compaction_auto_summary::*;
-
-// ---- the store: real request/response types and real functions ------------------------------------------------------------------
-//@@ item crates/ripd/src/continuities.rs const COMPACTION_JOB_KIND_SUMMARIZER_V1
-//@@ item crates/ripd/src/continuities.rs struct CompactionCheckpointCumulativeV1Request
-//@@ item crates/ripd/src/continuities.rs struct CompactionCutPointsV1Request
-//@@ item crates/ripd/src/continuities.rs struct CompactionCutPointsV1Response
-//@@ item crates/ripd/src/continuities.rs struct CompactionCutPointV1
-//@@ item crates/ripd/src/continuities.rs struct CompactionAutoV1Request
-//@@ item crates/ripd/src/continuities.rs struct CompactionAutoV1Response
-//@@ item crates/ripd/src/continuities.rs struct CompactionPlannedCutPointV1
-//@@ item crates/ripd/src/continuities.rs struct CompactionAutoResultCheckpointV1
-//@@ item crates/ripd/src/continuities.rs struct CompactionAutoScheduleV1Request
-//@@ item crates/ripd/src/continuities.rs struct CompactionAutoScheduleV1Response
-//@@ item crates/ripd/src/continuities.rs struct CompactionAutoScheduleDecidedPayload
-//@@ item crates/ripd/src/continuities.rs struct CompactionCheckpointCreatedPayload
-//@@ item crates/ripd/src/continuities.rs struct JobEndedPayload
-pub struct ContinuityStore {
-    pub workspace_root: PathBuf, pub event_log: EventLog, pub stream_cache: ContinuityStreamCache, pub sender: Sender,
-    pub next_seq: Mutex<HashMap<String, u64>>,
-}
-impl ContinuityStore {
-    pub fn replay_events(&self, id: &str) -> io::Result<Vec<Event>> { Ok(self.event_log.frames.borrow().iter().filter(|e| e.session_id == id).cloned().collect()) }
-    //@@ fn crates/ripd/src/continuities.rs ContinuityStore::load_next_seq_for
-    //@@ end
-    //@@ fn crates/ripd/src/continuities.rs ContinuityStore::append_message
-    //@@ end
-    //@@ fn crates/ripd/src/continuities.rs ContinuityStore::append_job_spawned
-    //@@ end
-    //@@ fn crates/ripd/src/continuities.rs ContinuityStore::append_job_ended
-    //@@ end
-    //@@ fn crates/ripd/src/continuities.rs ContinuityStore::append_compaction_checkpoint_created
-    //@@ end
-    //@@ fn crates/ripd/src/continuities.rs ContinuityStore::append_compaction_auto_schedule_decided
-    //@@ end
-    //@@ fn crates/ripd/src/continuities.rs ContinuityStore::find_inflight_compaction_job_id_best_effort_v1
-    //@@ end
-    //@@ fn crates/ripd/src/continuities.rs ContinuityStore::compaction_checkpoint_cumulative_v1
-    //@@ alias crate::compaction_summary::NewCumulativeCompactionSummaryV1 NewCumulativeCompactionSummaryV1
-    //@@ end
-    //@@ fn crates/ripd/src/continuities.rs ContinuityStore::compaction_cut_points_v1
-    //@@ end
-    //@@ fn crates/ripd/src/continuities.rs ContinuityStore::compaction_auto_v1
-    //@@ end
-    //@@ fn crates/ripd/src/continuities.rs ContinuityStore::compaction_auto_schedule_v1
-    //@@ end
-    //@@ fn crates/ripd/src/continuities.rs ContinuityStore::compaction_auto_schedule_spawn_job_v1
-    //@@ alias serde_json::json json
-    //@@ end
-    //@@ fn crates/ripd/src/continuities.rs ContinuityStore::compaction_auto_spawn_job_v1
-    //@@ alias serde_json::json json
-    //@@ end
-    //@@ fn crates/ripd/src/continuities.rs ContinuityStore::compaction_auto_run_spawned_job_v1
-    //@@ alias serde_json::json json
-    //@@ alias crate::compaction_summary::NewCumulativeCompactionSummaryV1 NewCumulativeCompactionSummaryV1
-    //@@ end
-}
-
+//@@ include units/c09_pipeline/scaffold.rs
 // ---- enumeration and oracle (from the property statement) -----------------------------------------------------------------------
 const T: &str = "t";
 // the first one holds 17 distinct words with equal counts: which of them make the top-keyword cut must not depend on hash order
 const CONTENTS: [&str; 4] = ["apple banana cherry damson elder figs grape hazel ivory jasmine kiwis lemon mango nectar olive peach quince", "alpha beta\nTODO: gamma", "beta alpha delta", "ERROR: alpha\n- [ ] beta"];
 fn fresh(mode: u8) -> ContinuityStore {
-    CTR.with(|c| *c.borrow_mut() = 0); BLOBS.with(|b| b.borrow_mut().clear()); SIDECAR.with(|s| s.borrow_mut().clear()); FAULT_WRITE_AT.with(|f| *f.borrow_mut() = None);
-    let st = ContinuityStore { workspace_root: PathBuf::from("/ws"), event_log: EventLog { frames: RefCell::new(Vec::new()) }, stream_cache: ContinuityStreamCache { mode }, sender: Sender, next_seq: Mutex::new(HashMap::new()) };
+    reset_scans(); CTR.with(|c| *c.borrow_mut() = 0); BLOBS.with(|b| b.borrow_mut().clear()); SIDECAR.with(|s| s.borrow_mut().clear()); FAULT_WRITE_AT.with(|f| *f.borrow_mut() = None);
+    let st = ContinuityStore { workspace_root: PathBuf::from("/ws"), event_log: EventLog { frames: RefCell::new(Vec::new()) }, stream_cache: ContinuityStreamCache { mode, window: None }, sender: Sender, next_seq: Mutex::new(HashMap::new()) };
     let created = Event { id: "c0".into(), session_id: T.into(), timestamp_ms: 0, seq: 0, kind: EventKind::ContinuityCreated { workspace: "ws".into(), title: None } };
     st.event_log.append(&created).unwrap(); st.stream_cache.append_best_effort(&created);
     st
